@@ -11,14 +11,16 @@ def chk(pid, text, note, technique, ref):
 
 
 chk("C12",
-    "TLC model-checks spec/write/Write.tla (one action per critical section of write_str, grow faults, flush, four writer "
-    "kinds) for InBounds/Exact/NoPartial/Sticky exhaustively within small bounds, four negative models must be refuted; "
-    "every TLC-enumerated behaviour is replayed state-by-state on the real diplomat-runtime (caller-supplied writer built "
-    "as a C caller would, fixed writer, Rust-owned writer) and seeded random runs of the real runtime are validated as "
-    "traces by Trace_Write.tla.",
+    "TLC model-checks spec/write/Write.tla (one action per critical section of write_str / write_char, grow faults, flush, four "
+    "writer kinds, capacities from 0) for InBounds/Exact/NoPartial/Sticky exhaustively within small bounds, four negative models "
+    "must be refuted; TLAPS additionally PROVES, without bounds (any chunk set, capacities, number of calls), that len <= cap, that "
+    "a copy is only started when it fits and that len equals the total length of the accepted chunks (spec/write/WriteProof.tla, "
+    "32 obligations); every TLC-enumerated behaviour is replayed state-by-state on the real diplomat-runtime (caller-supplied writer "
+    "built as a C caller would, fixed writer) through write_str and write_char, and seeded random runs of the real runtime "
+    "(incl. the Rust-owned writer with allocation accounting from create to destroy) are validated as traces by Trace_Write.tla.",
     "Bounds: chunks of 0-4 bytes, <=4(5) writes, capacities <=8(12). Trusts TLC, rustc, the harness's canary zones "
     "(ASan in the C/C++ leg). Vec/std::string allocation failure aborts and is out of scope.",
-    "TLA+ spec + TLC exhaustive model checking; spec->impl behaviour replay; impl->spec trace validation",
+    "TLA+ spec + TLC exhaustive model checking + TLAPS proof of the core invariant; spec->impl behaviour replay; impl->spec trace validation",
     "DESIGN.md §5 C12")
 
 chk("C16",
